@@ -214,13 +214,22 @@ def run(ck, ctx):
         cond, conv, bare = (v.args if v is not None and v.op == "Phi" else (None, None, None))
         while cond is not None and cond.op == "UnaryOp" and cond.attr == "Not":
             cond, conv, bare = cond.args[0], bare, conv
-        ok = cond is not None and cond.op == "IsInstance" and cond.args[0] is val
+        def kinds(c):
+            """type names tested by  isinstance(value, T | (T, ...))  or an `or` of such tests (a match statement with
+            class patterns `case A() | B():` is that disjunction); None for anything else"""
+            if c.op == "IsInstance" and c.args[0] is val:
+                ts = c.args[1].args if c.args[1].op == "Tuple" else [c.args[1]]
+                return None if any(x.op != "Ext" for x in ts) else {x.attr for x in ts}
+            if c.op == "BoolOp" and c.attr == "Or":
+                parts = [kinds(a) for a in c.args]
+                return None if any(p_ is None for p_ in parts) else set().union(*parts)
+            return None
+        tnames = kinds(cond) if cond is not None else None
+        ok = tnames is not None
         ck.ob("R15.2", "parse_units distinguishes quantities / strings from bare numbers", ok, v, fn,
               g.show(v, 3) if v is not None else "no value")
         if not ok:
             return
-        types = cond.args[1]
-        tnames = {x.attr for x in (types.args if types.op == "Tuple" else [types]) if x.op == "Ext"}
         ck.ob("R15.2", "the converted kinds are exactly (Quantity, str)", tnames == {"astropy.units.Quantity",
               "builtins.str"}, cond, fn, str(sorted(tnames)))
         to_call = conv.args[0] if conv.op == "Attr" and conv.args and conv.args[0].op == "MCall" else None
